@@ -3,6 +3,7 @@ package rules
 import (
 	"go/ast"
 	"go/types"
+	"strings"
 
 	"lachk/core"
 )
@@ -118,6 +119,199 @@ func c23OverlayClauses(c *core.Ctx) {
 			}
 		}
 	})
+
+	// C23.flushable.snapshot.own — the tree a snapshot reads is the snapshot's own: wherever GetSnapshot (or a
+	// function it calls) builds the snapshot's reader, every definition of the value placed in its overlay-tree
+	// field is a tree allocated for it (a constructor of the tree library, possibly through a helper or a
+	// parameter), never the wrapper's live overlay tree. A snapshot that holds the live tree shows every later
+	// Put/Delete of the store: it is not a frozen ordered map, whatever was pending when it was taken (the
+	// live tree may be empty at that moment — right after Flush — and still receives the later writes).
+	c.Clause("C23.flushable.snapshot.own", func() {
+		f := c.Fn(flT + ".GetSnapshot")
+		modF := c.Fld(flRead + ".modified")
+		rdT := c.P.LookupType(flRead)
+		c.Need(rdT != nil, "type "+flRead)
+		hosts := []*core.FuncInfo{f}
+		for _, cs := range f.Calls() {
+			if fn, ok := cs.Callee.(*types.Func); ok {
+				if g := c.P.FuncOf(fn); g != nil && g != f && core.RelPkg(g.Pkg.PkgPath) == "kvdb/flushable" {
+					hosts = append(hosts, g)
+				}
+			}
+		}
+		n := 0
+		seen := map[*ast.CompositeLit]bool{}
+		for _, g := range hosts {
+			g := g
+			g.InspectOwn(func(nd ast.Node) bool {
+				cl, ok := nd.(*ast.CompositeLit)
+				if !ok || seen[cl] {
+					return true
+				}
+				t := g.Info().TypeOf(cl)
+				if t == nil || !types.Identical(t, rdT.Type()) {
+					return true
+				}
+				seen[cl] = true
+				st, _ := rdT.Type().Underlying().(*types.Struct)
+				var val ast.Expr
+				for i, el := range cl.Elts {
+					if kv, isKV := el.(*ast.KeyValueExpr); isKV {
+						if id, isID := kv.Key.(*ast.Ident); isID {
+							if fv, isV := g.Info().ObjectOf(id).(*types.Var); isV && c.P.FieldName(fv) == modF {
+								val = kv.Value
+							}
+						}
+					} else if st != nil && i < st.NumFields() && c.P.FieldName(st.Field(i)) == modF {
+						val = el
+					}
+				}
+				if val == nil {
+					return true // no overlay tree given: a nil tree cannot alias the live one (C22 decides the readers)
+				}
+				n++
+				v, why := c23TreeOrigin(c, g, val, modF, 2, map[*types.Var]bool{})
+				switch v {
+				case c23True:
+					c.Pass("GetSnapshot|the snapshot reads a tree of its own", "alias (frozen copy)", "every definition of the snapshot's overlay tree is a freshly constructed tree")
+				case c23False:
+					c.Fail("GetSnapshot|the snapshot reads a tree of its own", "alias (frozen copy)", val.Pos(),
+						"the snapshot can be handed the wrapper's live overlay tree ("+why+"): puts, deletes and batch writes made after GetSnapshot() appear in (and disappear from) the snapshot's Get/Has/iteration — e.g. Flush(); s := GetSnapshot(); Put(k, v); s.Has(k) is true, while a snapshot of a plain store stays frozen")
+				default:
+					c.Undecided("GetSnapshot|the snapshot reads a tree of its own", "alias (frozen copy)", val.Pos(), "cannot decide that the tree given to the snapshot is allocated for it ("+why+")")
+				}
+				return true
+			})
+		}
+		if n == 0 {
+			c.Undecided("GetSnapshot|the snapshot reads a tree of its own", "alias (frozen copy)", f.Pos(), "no construction of the snapshot's reader with an overlay tree was found in GetSnapshot or a function of the package it calls")
+		}
+	})
+}
+
+// c23TreeOrigin: is the tree expression e of g certainly a tree constructed for this use (c23True), possibly the
+// live overlay tree held in field modF (c23False), or undecided? Definitions of locals are all considered (a tree
+// that is the live one on some path only is still the live one there); parameters of unexported functions are
+// judged at every call of the package; module functions returning a tree by their results.
+func c23TreeOrigin(c *core.Ctx, g *core.FuncInfo, e ast.Expr, modF string, depth int, busy map[*types.Var]bool) (int8, string) {
+	e = ast.Unparen(e)
+	if sel, ok := e.(*ast.SelectorExpr); ok {
+		if s, ok := g.Info().Selections[sel]; ok {
+			if fv, ok := s.Obj().(*types.Var); ok && fv.IsField() {
+				if c.P.FieldName(fv) == modF {
+					return c23False, exprStr(e) + " is the live overlay tree"
+				}
+				return c23Unknown, "field " + exprStr(e)
+			}
+		}
+	}
+	if call, ok := e.(*ast.CallExpr); ok {
+		name := calleeName(g, call)
+		if strings.HasPrefix(name, rbtP+"New") {
+			return c23True, ""
+		}
+		if depth <= 0 {
+			return c23Unknown, "call " + exprStr(e) + " not followed"
+		}
+		obj, _ := c.P.ResolveCallee(g.Info(), call)
+		fn, _ := obj.(*types.Func)
+		h := c.P.FuncOf(fn)
+		if h == nil || h == g {
+			return c23Unknown, "result of " + exprStr(e)
+		}
+		rps := h.ReturnPoints()
+		if len(rps) == 0 {
+			return c23Unknown, "result of " + exprStr(e)
+		}
+		res := c23True
+		why := ""
+		for _, rp := range rps {
+			r := rp.Node().(*ast.ReturnStmt)
+			if len(r.Results) != 1 {
+				return c23Unknown, "result of " + exprStr(e)
+			}
+			v, w := c23TreeOrigin(c, h, r.Results[0], modF, depth-1, map[*types.Var]bool{})
+			if v != c23True {
+				res, why = c23And(res, v), "in "+short(h.Name)+": "+w
+				if v == c23False {
+					return res, why
+				}
+			}
+		}
+		return res, why
+	}
+	v := varOfRaw(g, e)
+	if v == nil {
+		return c23Unknown, exprStr(e)
+	}
+	if busy[v] {
+		return c23True, ""
+	}
+	busy[v] = true
+	defer delete(busy, v)
+	if i := c23ParamIndex(g, v); i >= 0 {
+		if depth <= 0 || g.Obj == nil || g.Obj.Exported() || c23Reassigned(g, v) {
+			return c23Unknown, "parameter " + v.Name() + " of " + short(g.Name)
+		}
+		res, why, nCalls := c23True, "", 0
+		for _, top := range c.P.FuncsInPkg(core.RelPkg(g.Pkg.PkgPath)) {
+			for _, h := range append([]*core.FuncInfo{top}, allLits(top)...) {
+				for _, cs := range h.Calls() {
+					if cs.Callee != types.Object(g.Obj) || i >= len(cs.Call.Args) {
+						continue
+					}
+					nCalls++
+					r, w := c23TreeOrigin(c, h, cs.Call.Args[i], modF, depth-1, map[*types.Var]bool{})
+					if r != c23True {
+						res, why = c23And(res, r), "argument of "+short(g.Name)+" in "+short(top.Name)+": "+w
+					}
+				}
+			}
+		}
+		if nCalls == 0 {
+			return c23Unknown, short(g.Name) + " has no call in its package"
+		}
+		return res, why
+	}
+	// a local of g or of an enclosing function
+	host := g
+	for host.Parent != nil {
+		host = host.Parent // the outermost enclosing function: its literals are searched as well
+	}
+	if !(host.Body.Pos() <= v.Pos() && v.Pos() < host.Body.End()) {
+		return c23Unknown, v.Name() + " is not a local"
+	}
+	var defs []c23Def
+	var hostsOfDef []*core.FuncInfo
+	for _, x := range append([]*core.FuncInfo{host}, allLits(host)...) {
+		for _, d := range c23DefsOf(x, v) {
+			defs = append(defs, d)
+			hostsOfDef = append(hostsOfDef, x)
+		}
+	}
+	if len(defs) == 0 {
+		return c23Unknown, "no definition of " + v.Name()
+	}
+	res, why := c23True, ""
+	for k, d := range defs {
+		var r int8
+		var w string
+		switch {
+		case d.zero:
+			r = c23True // the nil tree is not the live one
+		case d.rhs == nil || d.multi:
+			r, w = c23Unknown, v.Name()+" is defined by a multi-value statement"
+		default:
+			r, w = c23TreeOrigin(c, hostsOfDef[k], d.rhs, modF, depth, busy)
+		}
+		if r != c23True {
+			res, why = c23And(res, r), w
+			if r == c23False {
+				return res, why
+			}
+		}
+	}
+	return res, why
 }
 
 // c23RangeVarOf: e is (a single-definition alias of) the key or value variable of the range loop.
